@@ -135,7 +135,11 @@ func (w *world) apply(s step, hist []step, check bool) {
 	case "head=":
 		w.c.SetHead(s.N)
 	case "final=":
-		w.c.SetFinalized(s.N)
+		n := s.N
+		if h, _ := w.c.Snapshot(); n > h {
+			n = h // a finalized head beyond the latest one is not a chain (edits can drop the step that advanced the head)
+		}
+		w.c.SetFinalized(n)
 	case "final+":
 		h, _ := w.c.Snapshot()
 		w.c.SetFinalized(h)
@@ -260,6 +264,9 @@ func (w *world) judgeWith(sv ethh.Served, asked bool, seq uint64, cl uint8, ts i
 	}
 	if !found {
 		return key+"forwarded a log that was not emitted by the core contract with the message-published topic", ""
+	}
+	if w.sc.Finalized && sv.FinalBefore < rc.BlockNumber.Uint64() {
+		return key + "forwarded although no FINALIZED head observed before the receipt lookup had reached the transaction's block (this chain is read at finalized height)", fmt.Sprintf("finalized head served before the lookup %d, block %d", sv.FinalBefore, rc.BlockNumber.Uint64())
 	}
 	if sv.HeadBefore < rc.BlockNumber.Uint64()+required {
 		return key+"forwarded although no head observed before the receipt lookup had reached block + required confirmations", fmt.Sprintf("head served before the lookup %d, block %d, required %d", sv.HeadBefore, rc.BlockNumber.Uint64(), required)
@@ -521,6 +528,14 @@ func bases() []scenario {
 		out = append(out, scenario{Name: fmt.Sprintf("second-after-first-confirmed/wait=%v", wc), WaitConf: wc, Level: 5,
 			Steps: []step{{Op: "mine", Tx: 1, Block: 101, Logs: []ethh.LogSpec{core(5, 1)}}, {Op: "poll"}, {Op: "head+", N: 2}, {Op: "poll"},
 				{Op: "mine", Tx: 2, Block: 104, Logs: []ethh.LogSpec{core(6, 5)}}, {Op: "head+", N: 6}, {Op: "poll"}}})
+	}
+	// a chain read at finalized height whose finalized head lags the latest one: a transaction between the two is not
+	// final - neither the per-head scan nor a re-observation request may forward it until the finalized head has
+	// reached its block
+	for _, wc := range []bool{true, false} {
+		out = append(out, scenario{Name: fmt.Sprintf("finalized-lags-latest/wait=%v", wc), WaitConf: wc, Finalized: true, Level: 1,
+			Steps: []step{{Op: "final=", N: 100}, {Op: "head+", N: 40}, {Op: "mine", Tx: 1, Block: 130, Logs: []ethh.LogSpec{core(5, 1)}}, {Op: "poll"}, {Op: "reobs", Tx: 1},
+				{Op: "final=", N: 120}, {Op: "poll"}, {Op: "reobs", Tx: 1}, {Op: "final=", N: 135}, {Op: "poll"}}})
 	}
 	// a reorg re-mines the transaction in another block: the node announces the new block's log and, on a separate
 	// feed, the removal of the old block's log - in either order; the transaction then stays in its new block
